@@ -9,7 +9,7 @@
      A scripted fetcher/database answers the requested pairs it has (all=false) or everything it has.
    observable: JSON object R (string of 0/1, or E), D (null or [[s,k,ts]]), F ([[idx,[[s,k,ts]]]]),
      S (null or [[s,k,key,exp,vu]]). *)
-From Verif Require Import Lib.Bytes Json.Ast Json.Parse Keys.Model Keys.Spec Keys.ServerKeys.
+From Verif Require Import Lib.Bytes Json.Ast Json.Parse Keys.Model Keys.Spec Keys.ServerKeys Keys.KeyDoc.
 Open Scope Z_scope.
 
 Definition gz (k : bytes) (j : json) : Z := match jget_int k j with Some z => z | None => 0 end.
@@ -40,8 +40,13 @@ Definition run_script (sc : script) : fetcher := fun asked =>
 Definition msgT := (Z * bytes)%type.
 Definition sig_entry (j : json) : option (Z * bytes * bytes) :=
   match j with JArr [i; k; key] => Some (jz i, jsb k, jsb key) | _ => None end.
+(* poison = indices of messages (documents) holding a signature entry that does not decode; the
+   table lists what verifies on its own, and an undecodable entry elsewhere spoils it unless the
+   source decodes per entry *)
+Definition poisoned (cfg : json) (i : Z) : bool := existsb (fun j => jz j =? i) (ga (bs "poison") cfg).
 Definition sig_table (cfg : json) : list (Z * bytes * bytes) :=
-  flat_map (fun j => match sig_entry j with Some e => [e] | None => [] end) (ga (bs "sig") cfg).
+  filter (fun e => signatures_per_entry || negb (poisoned cfg (fst (fst e))))
+         (flat_map (fun j => match sig_entry j with Some e => [e] | None => [] end) (ga (bs "sig") cfg)).
 Definition tbl_vj (tbl : list (Z * bytes * bytes)) (server kid key : bytes) (m : msgT) : bool :=
   existsb (fun e => match e with (i, k, ky) => (i =? fst m) && bytes_eqb k kid && bytes_eqb ky key end) tbl.
 Definition raw_kids (server : bytes) (m : msgT) : option (list bytes) := list_key_ids server (snd m).
@@ -102,8 +107,11 @@ Definition run_was_valid_at (args : list bytes) : bytes :=
 Definition prop_was_valid_at (args : list bytes) : bytes :=
   match args with
   | [now; e; v; a; st; impl] =>
-      let want := valid_at_spec (negb (zarg st =? 0)) (zarg now) (zarg e) (zarg v) (zarg a) in
-      if bytes_eqb impl (tf want) then bs "ok" else bs "FAIL want=" ++ tf want
+      let want := valid_at_unsigned (negb (zarg st =? 0)) (zarg now) (zarg e) (zarg v) (zarg a) in
+      let wrapped := valid_at_spec (negb (zarg st =? 0)) (zarg now) (zarg e) (zarg v) (zarg a) in
+      if bytes_eqb impl (tf want) then bs "ok"
+      else if bytes_eqb impl (tf wrapped) then bs "FAIL-F62 timestamp of 2^63 or more read as negative; want=" ++ tf want
+      else bs "FAIL want=" ++ tf want
   | _ => bs "badargs"
   end.
 
@@ -141,8 +149,11 @@ Definition scen_of (cfg : json) : scen :=
      s_sig := sig_table cfg; s_db := script_of (bs "ferr") d; s_serr := gb (bs "serr") d;
      s_fetchers := map (script_of (bs "err")) (ga (bs "fetchers") cfg) |}.
 
-Definition rec_valid (sc : scen) (r : pkres) (atts : Z) (strict : bool) : bool :=
-  valid_at_spec strict (s_now sc) (pk_expired r) (pk_valid_until r) atts.
+(* wrap = false: the rule on the unsigned millisecond values (the property text);
+   wrap = true: the rule as the library computes it through int64 (finding F62) *)
+Definition rec_valid (wrap : bool) (sc : scen) (r : pkres) (atts : Z) (strict : bool) : bool :=
+  if wrap then valid_at_spec strict (s_now sc) (pk_expired r) (pk_valid_until r) atts
+  else valid_at_unsigned strict (s_now sc) (pk_expired r) (pk_valid_until r) atts.
 
 Definition is_supported (kid : bytes) : bool := is_prefix (bs "ed25519:") kid.
 
@@ -164,17 +175,17 @@ Definition supplied (sc : scen) (sk : skey) : option pkres :=
   | None => first_fetcher sc sk
   end.
 
-Definition sound_at (sc : scen) (i : Z) (server : bytes) (atts : Z) (strict : bool) : bool :=
+Definition sound_at (wrap : bool) (sc : scen) (i : Z) (server : bytes) (atts : Z) (strict : bool) : bool :=
   existsb (fun e => match e with (j, kid, key) =>
              (j =? i) && is_supported kid
-             && existsb (fun r => bytes_eqb (pk_key r) key && rec_valid sc r atts strict)
+             && existsb (fun r => bytes_eqb (pk_key r) key && rec_valid wrap sc r atts strict)
                         (sources sc (server, kid)) end) (s_sig sc).
 
-Definition must_ok_at (sc : scen) (i : Z) (server : bytes) (atts : Z) (strict : bool) : bool :=
+Definition must_ok_at (wrap : bool) (sc : scen) (i : Z) (server : bytes) (atts : Z) (strict : bool) : bool :=
   existsb (fun e => match e with (j, kid, key) =>
              (j =? i) && is_supported kid
              && match supplied sc (server, kid) with
-                | Some r => bytes_eqb (pk_key r) key && rec_valid sc r atts strict
+                | Some r => bytes_eqb (pk_key r) key && rec_valid wrap sc r atts strict
                 | None => false
                 end end) (s_sig sc).
 
@@ -192,7 +203,7 @@ Definition pkres_eqb (a b : pkres) : bool :=
 
 Definition first_fail {A} (f : A -> bool) (l : list A) : option A := find (fun x => negb (f x)) l.
 
-Definition prop_verify_jsons (args : list bytes) : bytes :=
+Definition prop_verify_jsons_core (args : list bytes) : bytes :=
   match rev args with
   | obsb :: rest =>
       match rev rest with
@@ -209,11 +220,11 @@ Definition prop_verify_jsons (args : list bytes) : bytes :=
               else
                 let rows := combine (s_reqs sc) R in
                 match first_fail (fun row => match row with ((i, (s, a, st)), c) =>
-                                    negb (c =? 49)%N || sound_at sc i s a st end) rows with
+                                    negb (c =? 49)%N || sound_at false sc i s a st || sound_at true sc i s a st end) rows with
                 | Some ((i, _), _) => bs "FAIL sound " ++ print_int i
                 | None =>
                 match first_fail (fun row => match row with ((i, (s, a, st)), c) =>
-                                    negb (must_ok_at sc i s a st) || (c =? 49)%N end) rows with
+                                    negb (must_ok_at false sc i s a st && must_ok_at true sc i s a st) || (c =? 49)%N end) rows with
                 | Some ((i, _), _) => bs "FAIL complete " ++ print_int i
                 | None =>
                 let asked_all := flat_map (fun c => match c with JArr [_; JArr l] => map asked_entry l | _ => [] end) F in
@@ -245,6 +256,41 @@ Definition prop_verify_jsons (args : list bytes) : bytes :=
   | [] => bs "badargs"
   end.
 
+(* finding F62: rows whose verdict is right only under the int64 reading of a timestamp *)
+Definition prop_verify_jsons_f62 (args : list bytes) : option Z :=
+  match rev args with
+  | obsb :: rest =>
+      match rev rest with
+      | cfgb :: _ =>
+          match parse_json cfgb, parse_json obsb with
+          | Some cfg, Some obs =>
+              let sc := scen_of cfg in
+              let R := gs (bs "R") obs in
+              if negb (bytes_eqb R (bs "E")) && Nat.eqb (length R) (length (s_reqs sc)) then
+                match find (fun row => match row with ((i, (s, a, st)), c) =>
+                              ((c =? 49)%N && negb (sound_at false sc i s a st))
+                              || (must_ok_at false sc i s a st && negb (c =? 49)%N) end)
+                           (combine (s_reqs sc) R) with
+                | Some ((i, _), _) => Some i
+                | None => None
+                end
+              else None
+          | _, _ => None
+          end
+      | [] => None
+      end
+  | [] => None
+  end.
+
+Definition prop_verify_jsons (args : list bytes) : bytes :=
+  let r := prop_verify_jsons_core args in
+  if bytes_eqb r (bs "ok") then
+    match prop_verify_jsons_f62 args with
+    | Some i => bs "FAIL-F62 timestamp of 2^63 or more read as negative, request " ++ print_int i
+    | None => bs "ok"
+    end
+  else r.
+
 (* ================= CheckKeys and the two library fetchers =================
    documents: args = [scenario; raw doc 0; raw doc 1; ...]; scenario member docs = array of objects
    s (server_name), vu (valid_until_ts), verify = [[kid,keyhex]], old = [[kid,keyhex,expired_ts]] (the
@@ -257,22 +303,23 @@ Fixpoint unhex (s : bytes) : bytes :=
   match s with a :: b :: r => (16 * hexv a + hexv b)%N :: unhex r | _ => [] end.
 
 Definition docT := (Z * bytes)%type.
-Definition doc_of (p : Z * (json * bytes)) : server_keys docT :=
-  match p with
-  | (i, (j, raw)) =>
-      {| sk_server := gs (bs "s") j; sk_valid_until := gz (bs "vu") j;
-         sk_verify := flat_map (fun e => match e with JArr [k; key] => [(jsb k, unhex (jsb key))] | _ => [] end)
-                               (ga (bs "verify") j);
-         sk_old := flat_map (fun e => match e with JArr [k; key; x] => [(jsb k, (unhex (jsb key), jz x))] | _ => [] end)
-                            (ga (bs "old") j);
-         sk_raw := (i, raw) |}
+(* the model decodes the raw documents itself (Keys/KeyDoc.v: exact member names); a document that
+   does not decode is None at its position and a KeyClient error wherever it is used *)
+Definition doc_of (p : Z * bytes) : option (server_keys docT) :=
+  match parse_key_doc (snd p) with
+  | Some d => Some {| sk_server := kd_server d; sk_verify := kd_verify d; sk_valid_until := kd_valid_until d;
+                      sk_old := kd_old d; sk_raw := p |}
+  | None => None
   end.
-Definition docs_of (cfg : json) (raws : list bytes) : list (server_keys docT) :=
-  map doc_of (number_from 0 (combine (ga (bs "docs") cfg) raws)).
+Definition docs_of (cfg : json) (raws : list bytes) : list (option (server_keys docT)) :=
+  map doc_of (number_from 0 raws).
+Definition doc_at (docs : list (option (server_keys docT))) (i : Z) : option (server_keys docT) :=
+  match nth_error docs (Z.to_nat i) with Some (Some d) => Some d | _ => None end.
 
 Definition doc_sig_table (cfg : json) : list (Z * bytes * bytes * bytes) :=
-  flat_map (fun j => match j with JArr [i; n; k; key] => [(jz i, jsb n, jsb k, unhex (jsb key))] | _ => [] end)
-           (ga (bs "sig") cfg).
+  filter (fun e => signatures_per_entry || negb (poisoned cfg (fst (fst (fst e)))))
+         (flat_map (fun j => match j with JArr [i; n; k; key] => [(jz i, jsb n, jsb k, unhex (jsb key))] | _ => [] end)
+                   (ga (bs "sig") cfg)).
 Definition doc_vj (tbl : list (Z * bytes * bytes * bytes)) (name kid key : bytes) (m : docT) : bool :=
   existsb (fun e => match e with (i, n, k, ky) =>
              (i =? fst m) && bytes_eqb n name && bytes_eqb k kid && bytes_eqb ky key end) tbl.
@@ -295,7 +342,8 @@ Definition run_check_keys (args : list bytes) : bytes :=
       | None => bs "badconfig"
       | Some cfg =>
           match docs_of cfg raws with
-          | d :: _ => p_checks (check_keys docT (doc_vj (doc_sig_table cfg)) (gs (bs "server") cfg) (gz (bs "now") cfg) d)
+          | Some d :: _ => p_checks (check_keys docT (doc_vj (doc_sig_table cfg)) (gs (bs "server") cfg) (gz (bs "now") cfg) d)
+          | None :: _ => bs "unmarshal-error"
           | [] => bs "nodoc"
           end
       end
@@ -312,7 +360,8 @@ Definition prop_check_keys (args : list bytes) : bytes :=
           | None => bs "badconfig"
           | Some cfg =>
               match docs_of cfg raws with
-              | d :: _ =>
+              | None :: _ => if bytes_eqb obs (bs "unmarshal-error") then bs "ok" else bs "FAIL undecodable document accepted"
+              | Some d :: _ =>
                   let tbl := doc_sig_table cfg in
                   let eds := filter (fun kv => bytes_eqb (algorithm_of (fst kv)) (bs "ed25519")) (sk_verify docT d) in
                   let want :=
@@ -333,8 +382,16 @@ Definition prop_check_keys (args : list bytes) : bytes :=
 
 Definition idx_list (j : option json) : option (list Z) :=
   match j with Some (JArr l) => Some (map jz l) | _ => None end.
-Definition pick_docs (docs : list (server_keys docT)) (ix : list Z) : list (server_keys docT) :=
-  flat_map (fun i => match nth_error docs (Z.to_nat i) with Some d => [d] | None => [] end) ix.
+Fixpoint pick_docs (docs : list (option (server_keys docT))) (ix : list Z) : option (list (server_keys docT)) :=
+  match ix with
+  | [] => Some []
+  | i :: r => match doc_at docs i, pick_docs docs r with
+              | Some d, Some ds => Some (d :: ds)
+              | _, _ => None
+              end
+  end.
+Definition lookup_docs (docs : list (option (server_keys docT))) (j : option json) : option (list (server_keys docT)) :=
+  match idx_list j with Some ix => pick_docs docs ix | None => None end.
 Definition asked_of (cfg : json) : kmap Z :=
   fold_left (fun m j => match j with JArr [s; k; t] => minsert (jsb s, jsb k) (jz t) m | _ => m end)
             (ga (bs "asked") cfg) [].
@@ -355,9 +412,9 @@ Definition run_direct_fetch (args : list bytes) : bytes :=
           let getj := match jget (bs "get") cfg with Some g => g | None => JNull end in
           let lookj := match jget (bs "lookup") cfg with Some g => g | None => JNull end in
           let get := fun server => match jget server getj with
-                                   | Some (JNum r) => nth_error docs (Z.to_nat (jz (JNum r)))
+                                   | Some (JNum r) => doc_at docs (jz (JNum r))
                                    | _ => None end in
-          let lookup := fun server (_ : kmap Z) => option_map (pick_docs docs) (idx_list (jget server lookj)) in
+          let lookup := fun server (_ : kmap Z) => lookup_docs docs (jget server lookj) in
           let locals := map jsb (ga (bs "local") cfg) in
           let is_local := fun s => mem_bytes s locals in
           let asked := asked_of cfg in
@@ -384,7 +441,7 @@ Definition run_perspective_fetch (args : list bytes) : bytes :=
           let vjf := doc_vj (doc_sig_table cfg) in
           let pkeys := flat_map (fun e => match e with JArr [k; key] => [(jsb k, unhex (jsb key))] | _ => [] end)
                                 (ga (bs "pkeys") cfg) in
-          let lookup := fun (_ : bytes) (_ : kmap Z) => option_map (pick_docs docs) (idx_list (jget (bs "lookup") cfg)) in
+          let lookup := fun (_ : bytes) (_ : kmap Z) => lookup_docs docs (jget (bs "lookup") cfg) in
           bs "A=" ++ p_asked (asked_of cfg) ++ bs ";"
           ++ match perspective_fetch docT doc_kids vjf lookup (gs (bs "pname") cfg) pkeys (asked_of cfg) with
              | None => bs "E"
@@ -405,8 +462,17 @@ Definition doc_passes (tbl : list (Z * bytes * bytes * bytes)) (server : bytes) 
 
 Definition ends_with (suffix s : bytes) : bool := is_prefix (rev suffix) (rev s).
 
-(* an answer only if every response is signed by the notary under an id we hold its key for, and
-   is self-signed with a valid_until_ts after the epoch *)
+(* does document d list the result row (kid, key hex, expired, valid_until)? *)
+Definition doc_lists (d : server_keys docT) (k key : bytes) (e v : Z) : bool :=
+  existsb (fun kv => bytes_eqb (fst kv) k && bytes_eqb (hex_of_bytes (snd kv)) key
+                     && (v =? sk_valid_until docT d) && (e =? 0)) (sk_verify docT d)
+  || existsb (fun kv => bytes_eqb (fst kv) k && bytes_eqb (hex_of_bytes (fst (snd kv))) key
+                        && (e =? snd (snd kv)) && (v =? 0)) (sk_old docT d).
+
+(* an answer only if every response decodes and is signed by the notary under an id we hold its
+   key for; and every key of the answer is listed by a response that names the key's server by its
+   member spelled exactly server_name, is about a server that was asked for, and is self-signed by
+   that server with a valid_until_ts after the epoch *)
 Definition prop_perspective_fetch (args : list bytes) : bytes :=
   match rev args with
   | obs :: rest =>
@@ -420,14 +486,33 @@ Definition prop_perspective_fetch (args : list bytes) : bytes :=
                 let docs := docs_of cfg raws in
                 let tbl := doc_sig_table cfg in
                 let pname := gs (bs "pname") cfg in
+                let asked := asked_of cfg in
                 let pkeys := flat_map (fun e => match e with JArr [k; key] => [(jsb k, unhex (jsb key))] | _ => [] end)
                                       (ga (bs "pkeys") cfg) in
-                match idx_list (jget (bs "lookup") cfg) with
-                | None => bs "FAIL answer without a notary response"
-                | Some ix =>
-                    if forallb (fun d => existsb (fun pk => doc_vj tbl pname (fst pk) (snd pk) (sk_raw docT d)) pkeys
-                                         && doc_passes tbl (sk_server docT d) 0 d) (pick_docs docs ix)
-                    then bs "ok" else bs "FAIL accepted a response the notary did not sign or that fails its checks"
+                let signed := fun d => existsb (fun pk => doc_vj tbl pname (fst pk) (snd pk) (sk_raw docT d)) pkeys in
+                match lookup_docs docs (jget (bs "lookup") cfg) with
+                | None => bs "FAIL answer without a decodable notary response"
+                | Some ds =>
+                    if negb (forallb signed ds) then bs "FAIL accepted a response the notary did not sign"
+                    else
+                      match split_at 59%N obs with
+                      | None => bs "FAIL unreadable result"
+                      | Some (_, tail) =>
+                          match parse_json tail with
+                          | Some (JArr rows) =>
+                              if forallb (fun row =>
+                                   match row with
+                                   | JArr [s; k; key; e; v] =>
+                                       existsb (fun kv => bytes_eqb (fst (fst kv)) (jsb s)) asked
+                                       && existsb (fun d => signed d && doc_passes tbl (jsb s) 0 d
+                                                            && doc_lists d (jsb k) (jsb key) (jz e) (jz v)) ds
+                                   | _ => false
+                                   end) rows
+                              then bs "ok"
+                              else bs "FAIL-F64 returned a key that no response naming that server exactly, asked for and self-signed, lists"
+                          | _ => bs "FAIL unreadable result"
+                          end
+                      end
                 end
           end
       | [] => bs "badargs"
@@ -452,9 +537,9 @@ Definition prop_direct_fetch (args : list bytes) : bytes :=
               let lookj := match jget (bs "lookup") cfg with Some g => g | None => JNull end in
               let candidates := fun server =>
                 (match jget server getj with
-                 | Some (JNum r) => match nth_error docs (Z.to_nat (jz (JNum r))) with Some d => [d] | None => [] end
+                 | Some (JNum r) => match doc_at docs (jz (JNum r)) with Some d => [d] | None => [] end
                  | _ => [] end)
-                ++ (match idx_list (jget server lookj) with Some ix => pick_docs docs ix | None => [] end) in
+                ++ (match lookup_docs docs (jget server lookj) with Some l => l | None => [] end) in
               match split_at 91%N obs with       (* the result list starts at the first bracket *)
               | None => bs "FAIL no result"
               | Some (_, tail) =>
@@ -493,10 +578,25 @@ Definition run_public_key (args : list bytes) : bytes :=
       | None => bs "badconfig"
       | Some cfg =>
           match docs_of cfg raws with
-          | d :: _ => match public_key docT d (gs (bs "kid") cfg) (gz (bs "at") cfg) with
-                      | None => bs "nil" | Some [] => bs "nil" | Some k => hex_of_bytes k end
+          | Some d :: _ => match public_key docT d (gs (bs "kid") cfg) (gz (bs "at") cfg) with
+                           | None => bs "nil" | Some [] => bs "nil" | Some k => hex_of_bytes k end
+          | None :: _ => bs "unmarshal-error"
           | [] => bs "nodoc"
           end
+      end
+  | _ => bs "badargs"
+  end.
+
+(* ServerKeys.UnmarshalJSON alone: [raw] -> E | s=..;vu=..;v=kid=hex,..;o=kid=hex:expired,.. *)
+Definition run_parse_key_doc (args : list bytes) : bytes :=
+  match args with
+  | [raw] =>
+      match parse_key_doc raw with
+      | None => bs "E"
+      | Some d =>
+          bs "s=" ++ kd_server d ++ bs ";vu=" ++ print_int (kd_valid_until d)
+          ++ bs ";v=" ++ commas (map (fun kv => fst kv ++ bs "=" ++ hex_of_bytes (snd kv)) (kd_verify d))
+          ++ bs ";o=" ++ commas (map (fun kv => fst kv ++ bs "=" ++ hex_of_bytes (fst (snd kv)) ++ bs ":" ++ print_int (snd (snd kv))) (kd_old d))
       end
   | _ => bs "badargs"
   end.
@@ -507,6 +607,7 @@ Definition ops_C12 : list (bytes * (list bytes -> bytes)) :=
     (bs "C12.list_key_ids", run_list_key_ids);
     (bs "C12.check_keys", run_check_keys);
     (bs "C12.public_key", run_public_key);
+    (bs "C12.parse_key_doc", run_parse_key_doc);
     (bs "C12.direct_fetch", run_direct_fetch);
     (bs "C12.perspective_fetch", run_perspective_fetch);
     (bs "C12.prop.check_keys", prop_check_keys);
